@@ -337,11 +337,23 @@ def _drop_atoms(S, _):
 
 
 def _drop_nonposition_atoms(S):
-    """Set aside membership/identity literals (component present, agent not a duplicate): other rules' business."""
-    from sa.terms import drop_literals, AIn, AIs, ATruthy
+    """Set aside every literal that does not speak about a coordinate, an extent, the offset or the topology (component
+    present, agent not a duplicate, ...): those are other rules' business."""
+    from sa.terms import drop_literals, term_symbols
+    keep_names = {'width', 'height', 'depth', '_index_offset', 'wrap_env'}
+    coord = {'x', 'y', 'z', 'x_pos', 'y_pos', 'z_pos'}
 
     def pred(a):
-        if isinstance(a, (AIn, AIs)):
+        from sa.terms import AIn, AIs, AEq, AIsInst, ATruthy
+        if isinstance(a, (AIn, AIs, AEq, AIsInst)):
             return True
-        return isinstance(a, ATruthy) and not (isinstance(a.t, Attr) and a.t.name == 'wrap_env')
+        if isinstance(a, ATruthy):
+            return not (isinstance(a.t, Attr) and a.t.name == 'wrap_env')
+        syms = term_symbols(a)
+        for s in syms:
+            if isinstance(s, Attr) and s.name in keep_names:
+                return False
+            if isinstance(s, Sym) and s.name in coord:
+                return False
+        return True
     return drop_literals(S, pred)
